@@ -315,6 +315,17 @@ def thread_jumps(raw, max_rounds=60, max_chain=6):
                             continue
                         if len(chain) < max_chain and p != 0:
                             work.append(([p] + chain, tr))
+                    elif pt['k'] == 'switch' and 'folded' not in pt and head in _succs(pt):
+                        # a block that decides something else (a drop flag ..) on its way here: if the value is known at its
+                        # end, the edge(s) that lead here can be redirected; the walk does not go further back through it
+                        k = _known_in(P['stmts'], track, kind)
+                        tr = track
+                        while k and k[0] == 'alias':
+                            tr = k[1]
+                            k = _known_in(P['stmts'], tr, kind, k[2])
+                        if k and k[0] == 'known':
+                            found = (p, chain, k[1])
+                            break
                     elif pt['k'] == 'call' and pt.get('target') == head and not pt['dest']['p'] and pt['dest']['l'] == track:
                         continue
             if not found:
@@ -341,7 +352,11 @@ def thread_jumps(raw, max_rounds=60, max_chain=6):
             st = blocks[prev]['term']
             blocks[prev]['term'] = {'k': 'goto', 'target': tgt, 'line': st.get('line'), 'file': st.get('file'), 'exp': st.get('exp'), 'threaded': v}
             pt = blocks[p]['term']
-            if pt['k'] == 'switch':
+            if pt['k'] == 'switch' and 'folded' not in pt:
+                pt['targets'] = [[v_, (first if d_ == chain[0] else d_)] for v_, d_ in pt['targets']]
+                if pt['otherwise'] == chain[0]:
+                    pt['otherwise'] = first
+            elif pt['k'] == 'switch':
                 pt['folded'] = first
             else:
                 pt['target'] = first
